@@ -122,6 +122,12 @@ use Stage::{Analysis, Parse};
 pub const CATALOGUE: &[Entry] = &[
     e("empty_ingredient_name", "«@{}»", NONE, Err_, Parse, false),
     e("empty_cookware_name", "«#{}»", NONE, Err_, Parse, false),
+    // names, aliases, keys, values made only of white space that is not ASCII count as empty too
+    e("blank_ingredient_name_nbsp", "«@\u{a0}{1%kg}»", NONE, Err_, Parse, false),
+    e("blank_cookware_name_ideographic_space", "«#\u{3000}{}»", NONE, Err_, Parse, false),
+    e("blank_alias_nbsp", "@zz9«|\u{a0}»{}", E::COMPONENT_ALIAS, Err_, Parse, false),
+    e("blank_value_nbsp", "@zz9{«\u{a0}%g»}", NONE, Err_, Parse, false),
+    e("blank_metadata_key_nbsp", ">>«\u{a0}»: v", NONE, Err_, Parse, true),
     e("zero_denominator", "@zz9{«1/0»%g}", NONE, Err_, Parse, false),
     e("zero_denominator_mixed", "@zz9{«2 1/0»}", NONE, Err_, Parse, false),
     e("empty_value", "@zz9{«%g»}", NONE, Err_, Parse, false),
@@ -167,6 +173,9 @@ pub const CATALOGUE: &[Entry] = &[
     e("intermediate_relative_one_past_last", "@&«(~%STEPS+1%)»zz9{}", E::INTERMEDIATE_PREPARATIONS, Err_, Analysis, false),
     e("intermediate_section_one_past_last", "@&«(=%SECTIONS+1%)»zz9{}", E::INTERMEDIATE_PREPARATIONS, Err_, Analysis, false),
     e("intermediate_relative_section_one_past_last", "@&«(=~%SECTIONS+1%)»zz9{}", E::INTERMEDIATE_PREPARATIONS, Err_, Analysis, false),
+    e("intermediate_with_new_modifier_before", "filler\n\n@«+&(~1)»zz9{}", E::INTERMEDIATE_PREPARATIONS, Err_, Analysis, true),
+    e("intermediate_with_new_modifier_after", "filler\n\n@«&(~1)+»zz9{}", E::INTERMEDIATE_PREPARATIONS, Err_, Analysis, true),
+    e("intermediate_with_recipe_modifier", "filler\n\n@«@&(~1)»zz9{}", E::INTERMEDIATE_PREPARATIONS, Err_, Analysis, true),
     e("intermediate_with_conflicting_modifier", "filler\n\n@«&(~1)-»zz9{}", E::INTERMEDIATE_PREPARATIONS, Err_, Analysis, true),
     e("bad_mode_value", ">> [mode]: «bogus»", E::MODES, Err_, Analysis, true),
     e("bad_duplicate_value", ">> [duplicate]: «bogus»", E::MODES, Err_, Analysis, true),
@@ -347,7 +356,7 @@ pub fn check_injection(ctx: &mut Ctx, ps: &mut Parsers, entry: &Entry, text: &st
 
 fn front_matter_family(ctx: &mut Ctx, ps: &mut Parsers, host: &str) {
     // malformed front matter: an analysis error that keeps the output; the label (when present) lies in the front matter
-    for y in [": [", "- a\n- b", "a: 'unterminated", "a: b: c: [", "{", "a: [1, 2"] {
+    for y in [": [", "- a\n- b", "a: 'unterminated", "a: b: c: [", "{", "a: [1, 2", "title: Pancakes\n...\nservings: 4", "a: *nope", "a: b\n...\n- c", "just a scalar", "42", "a: 1\na: 2"] {
         let text = format!("---\n{y}\n---\n{host}");
         let fm_end = 4 + y.len() + 1;
         for ext in [E::empty().bits(), E::all().bits()] {
